@@ -193,7 +193,48 @@ def c14_shapes(tier):
         return [(2, 1, 1, 0, 1, 1, 0), (2, 1, 1, 1, 3, 0, 0), (2, 1, 1, 0, 0, 1, 0), (2, 1, 1, 0, 3, 1, 1), (2, 2, 1, 0, 2, 0, 0)]
     return [(2, 1, 2, 0, 1, 1, 0), (2, 1, 2, 1, 3, 0, 0), (2, 1, 2, 0, 3, 1, 1), (3, 1, 1, 0, 5, 1, 0), (2, 2, 1, 0, 2, 1, 0), (3, 1, 1, 1, 7, 0, 1), (2, 2, 1, 1, 3, 0, 1)]
 
+def c15_shapes(tier):
+    # (family, op thread 1, op thread 2, preemption bound, entry thread, reading listener)
+    if tier == 'quick':
+        return [(1, 3, 1, 1, 0, 0), (1, 2, 0, 1, 0, 0), (0, 3, 1, 1, 0, 0), (2, 3, 2, 1, 0, 0), (3, 2, 4, 1, 0, 0), (4, 3, 1, 1, 0, 0),
+                (1, 3, 8, 1, 0, 0), (0, 2, 8, 1, 0, 0), (1, 1, 6, 1, 0, 1), (3, 5, 8, 1, 0, 0)]
+    out = []
+    for fam in range(5):
+        for a, b in [(3, 1), (2, 0), (3, 2), (4, 1), (5, 2), (1, 7), (3, 6), (0, 8), (2, 8), (3, 8), (4, 8)]:
+            if fam == 4 and (a in (2, 5, 7) or b in (2, 5, 7)):
+                continue
+            out.append((fam, a, b, 1, 0, 0))
+    out += [(1, 3, 1, 1, 1, 0), (0, 3, 1, 1, 1, 0), (1, 1, 6, 1, 0, 1), (1, 3, 4, 1, 0, 1), (1, 3, 1, 2, 0, 0)]
+    return out
+
+def c16_shapes(tier):
+    # (situation, preemption bound, strategy)
+    if tier == 'quick':
+        return [(0, 1, 2), (1, 1, 2), (2, 1, 2), (0, 1, 1)]
+    return [(0, 2, 2), (1, 2, 2), (2, 1, 2), (0, 2, 1), (1, 2, 1), (2, 1, 1)]
+
 PROPS = {
+    'C15': {
+        'level': 'model_checking',
+        'bounds': 'two threads, each one manager operation of the same family out of {load-all {A1}, load-all {A1,A2,B1}, load-for-resource r1 {A2}, append A2, clear, clear-resource r1, get_rules, get_rules_of_resource, build+exit an entry on r1} '
+                  '(quick: 10 pairs over the five families, thorough: 11 pairs per family, selected triples with an entry thread), starting from a manager holding {A1}; every interleaving at visible operations with at most 1 preemption (thorough: 2 for one pair); '
+                  'circuit breaker additionally with a state-change listener whose callbacks call get_rules_of_resource / get_breakers_of_resource; afterwards every manager must answer get_rules and accept clear + append',
+        'assumptions': ['deadlock = a state in which no thread can run, or a thread re-acquiring a lock it holds', 'sequentially consistent memory', 'a deadlock is confirmed natively by a stress replay that hangs (5 s timeout) under delay injection at the library sync points'],
+        'scenarios': [
+            {'name': 'c15_managers', 'threads': True, 'shapes': {'quick': c15_shapes('quick'), 'thorough': c15_shapes('thorough')},
+             'witnesses': ['joined'], 'selftest': {'quick': 4, 'thorough': 10}},
+        ],
+    },
+    'C16': {
+        'level': 'model_checking',
+        'bounds': 'one breaker (error count threshold 1 or error ratio 0.5, min_request_amount 1, retry 400 ms) and 2-3 threads around each transition: (0) two failing completions that each would open it, '
+                  '(1) two requests arriving after the retry timeout, (2) the probe completion racing a new request and a stale failing completion; every interleaving at visible operations with at most 1 (quick) / 2 preemptions; clock fixed during the race',
+        'assumptions': ['sequentially consistent memory', 'chain of the real breaker check and statistic slots plus a slot that records the round trip'],
+        'scenarios': [
+            {'name': 'c16_breaker_race', 'threads': True, 'shapes': {'quick': c16_shapes('quick'), 'thorough': c16_shapes('thorough')},
+             'witnesses': ['raced'], 'selftest': {'quick': 4, 'thorough': 8}},
+        ],
+    },
     'C14': {
         'level': 'model_checking',
         'bounds': '2 (quick) / 2-3 threads, each 1-2 build/exit pairs (exit per thread on/off) on one resource, fresh or pre-existing, inbound or outbound; schedules: every interleaving of the threads at their visible '
